@@ -15,6 +15,8 @@
 EXTENDS Lifecycle
 
 CONSTANTS Pairs,      \* TRUE: generate concurrent pairs as well
+          MaxPairs,   \* at most that many pairs per scenario
+          AllowCrash, \* FALSE: do not walk into the deployments that kill the core process (Code_AllClaimedCrashes)
           GateChoices \* gates that may be used (subset of AllGates)
 
 VARIABLES hist,   \* sequence of scenario items
@@ -26,12 +28,12 @@ gvars == <<hist, mode, pa, pb, gate>>
 
 AllGates == {"envman.create.snapshot", "envman.create.registered", "task.lock",
              "td.left", "td.released1", "td.destroyhooks", "td.released2", "td.done",
-             "task.kill.select", "env.lock.acquired"}
+             "task.kill.send", "env.lock.acquired"}
 GatesOf(kind) ==
   CASE kind = "create" -> {"envman.create.snapshot", "envman.create.registered", "task.lock"}
-    [] kind = "destroy" -> {"td.left", "td.released1", "td.destroyhooks", "td.released2", "td.done", "task.kill.select"}
+    [] kind = "destroy" -> {"td.left", "td.released1", "td.destroyhooks", "td.released2", "td.done", "task.kill.send"}
     [] kind = "control" -> {"env.lock.acquired"}
-    [] kind = "cleanup" -> {"task.kill.select"}
+    [] kind = "cleanup" -> {"task.kill.send"}
     [] OTHER -> {}
 NoProc == <<"none", "none">>
 
@@ -56,7 +58,8 @@ Step(p, g) == /\ Free(p)
 CallRec(kind, e, more) == [do |-> kind, env |-> e] @@ more
 StartSeq(rec) == /\ mode = "seq" /\ Quiet
                  /\ hist' = Append(hist, rec) /\ UNCHANGED <<mode, pa, pb, gate>>
-StartA(rec, p, g) == /\ Pairs /\ mode = "seq" /\ Quiet /\ g \in GatesOf(p[1]) \cap GateChoices
+NPairs == Cardinality({i \in 1..Len(hist) : hist[i].do = "par"})
+StartA(rec, p, g) == /\ Pairs /\ mode = "seq" /\ Quiet /\ g \in GatesOf(p[1]) \cap GateChoices /\ NPairs < MaxPairs
                      /\ hist' = Append(hist, [do |-> "par", a |-> rec, gate |-> g, b |-> [do |-> "none"]])
                      /\ mode' = IF g = "env.lock.acquired" THEN "B0" ELSE "A"
                      /\ pa' = p /\ gate' = g /\ pb' = NoProc
@@ -65,7 +68,13 @@ StartB(rec, p) == /\ mode = "B0" /\ p # pa
                   /\ mode' = "B" /\ pb' = p /\ UNCHANGED <<pa, gate>>
 Start(rec, p) == StartSeq(rec) \/ (\E g \in AllGates : StartA(rec, p, g)) \/ StartB(rec, p)
 
+\* while the crash on a fully claimed deployment is open, a new environment has a task role that no earlier
+\* environment has (the harness lives in the core's process)
+SafeShape(e, B, H) ==
+  (ReuseUnlocked /\ Code_AllClaimedCrashes /\ ~AllowCrash) =>
+     \A e2 \in Envs : cpc[e2] # "none" => ~((B \cup (H \cap HookTaskNames)) \subseteq TaskRolesOf(e2))
 G_CreateCall(e, B, H, p, D, s) ==
+  /\ SafeShape(e, B, H)
   /\ CreateCall(e, B, H, p, D, s)
   /\ Start(CallRec("create", e, [basic |-> B, hooks |-> H, pend |-> p, dets |-> D, script |-> s]), CProc(e))
 G_DestroyCall(e, fl) == DestroyCall(e, fl) /\ Start(CallRec("destroy", e, [flags |-> fl]), DProc(e))
@@ -89,10 +98,12 @@ G_LaunchSet(e, M) == LaunchSet(e, M) /\ Free(CProc(e)) /\ Same
 G_Lock(e, t) == Lock(e, t) /\ Step(CProc(e), "task.lock")
 G_RosterAppend(e, t) == RosterAppend(e, t) /\ Free(CProc(e)) /\ Same
 G_LockReused(e, t) == LockReused(e, t) /\ Free(CProc(e)) /\ Same
+G_AcqCrash(e) == AcqCrash(e) /\ Free(CProc(e)) /\ Same
 G_AcqRetry(e) == AcqRetry(e) /\ Free(CProc(e)) /\ Same
 G_CDeployEnd(e, ok) == CDeployEnd(e, ok) /\ Free(CProc(e)) /\ Same
 G_CConfigure(e, ok) == CConfigure(e, ok) /\ Free(CProc(e)) /\ Same
 G_CReplyOk(e) == CReplyOk(e) /\ Free(CProc(e)) /\ Same
+G_CReplyGone(e) == CReplyGone(e) /\ Free(CProc(e)) /\ Same
 G_CTailGoError(e, ok) == CTailGoError(e, ok) /\ Free(CProc(e)) /\ Same
 G_CReplyErr(e) == CReplyErr(e) /\ Free(CProc(e)) /\ Same
 G_TdLock(e, who) == TdLock(e, who) /\ Free(IF who = "c" THEN CProc(e) ELSE DProc(e)) /\ Same
@@ -107,6 +118,7 @@ G_TdReleased2(e) == TdReleased2(e) /\ Step(TdProc(e), "td.released2")
 G_TdDone(e) == TdDone(e) /\ Step(TdProc(e), "td.done")
 G_TdDelete(e) == TdDelete(e) /\ Free(TdProc(e)) /\ Same
 G_DPre(e, op, ok) == DPre(e, op, ok) /\ Free(DProc(e)) /\ Same
+G_DPlan(e) == DPlan(e) /\ Free(DProc(e)) /\ Same
 G_DGoTd(e) == DGoTd(e) /\ Free(DProc(e)) /\ Same
 G_DTdNotFound(e) == DTdNotFound(e) /\ Free(DProc(e)) /\ Same
 G_DReply(e) == DReply(e) /\ Free(DProc(e)) /\ Same
@@ -116,8 +128,9 @@ G_XForce(e) == XForce(e) /\ Free(XProc(e)) /\ Same
 G_XReply(e) == XReply(e) /\ Free(XProc(e)) /\ Same
 G_CleanupReply == CleanupReply /\ Free(KProc) /\ Same
 G_KillBegin(k) == KillBegin(k) /\ Free(KillerProc(k)) /\ Same
-G_KillSelect(k, t, act) == KillSelect(k, t, act) /\ Step(KillerProc(k), "task.kill.select")
-G_KillSend(k, t) == KillSend(k, t) /\ Free(KillerProc(k)) /\ Same
+G_KillRemove(k) == KillRemove(k) /\ Free(KillerProc(k)) /\ Same
+G_KillSelect(k, t, act) == KillSelect(k, t, act) /\ Free(KillerProc(k)) /\ Same
+G_KillSend(k, t) == KillSend(k, t) /\ Step(KillerProc(k), "task.kill.send")
 \* the cluster moves on its own, whoever is parked
 G_TaskRunning(t) == TaskRunning(t) /\ Same
 G_TaskGone(t) == TaskGone(t) /\ (killSent[t] \/ triggered[t] \/ trole[t] \notin FaultRoles) /\ Same
@@ -130,7 +143,8 @@ Calls ==
   \/ G_CleanupCall
   \/ \E t \in TaskIds : G_Fault(t)
 
-Internal ==
+InternalSteps ==
+  \/ \E e \in Envs : G_AcqCrash(e)
   \/ \E e \in Envs :
        \/ G_CSnap(e) \/ G_CRefuse(e) \/ G_CRegister(e) \/ G_CDeployLock(e)
        \/ OneOf({t \in TaskIds : ENABLED Claim(e, t)}, LAMBDA t : G_Claim(e, t))
@@ -142,19 +156,21 @@ Internal ==
        \/ OneOf({t \in relq[e] : owner[t] \in {e, None}}, LAMBDA t : G_Unlock(e, t))
        \/ G_AcqRetry(e)
        \/ \E ok \in BOOLEAN : G_CDeployEnd(e, ok) \/ G_CConfigure(e, ok) \/ G_CTailGoError(e, ok) \/ G_XTrans(e, ok) \/ G_XGoError(e, ok)
-       \/ G_CReplyOk(e) \/ G_CReplyErr(e)
+       \/ G_CReplyOk(e) \/ G_CReplyErr(e) \/ G_CReplyGone(e)
        \/ \E who \in {"c", "d"} : G_TdLock(e, who)
        \/ G_TdRefuse(e) \/ G_TdLeft(e) \/ G_TdReleased1(e) \/ G_TdRelError(e) \/ G_TdCancel(e) \/ G_TdReleased2(e) \/ G_TdDone(e) \/ G_TdDelete(e)
        \/ LET ht == TasksOfRoles(e, HookTaskRoles(e)) IN G_TdHooks(e, {t \in ht : running[t] /\ alive[t]})
        \/ \E op \in {"STOP_ACTIVITY", "RESET"}, ok \in BOOLEAN : G_DPre(e, op, ok)
-       \/ G_DGoTd(e) \/ G_DTdNotFound(e) \/ G_DReply(e)
+       \/ G_DPlan(e) \/ G_DGoTd(e) \/ G_DTdNotFound(e) \/ G_DReply(e)
        \/ G_XForce(e) \/ G_XReply(e)
   \/ G_CleanupReply
   \/ \E t \in TaskIds : G_TaskRunning(t) \/ G_TaskGone(t)
   \/ \E k \in Killers :
-       \/ G_KillBegin(k)
+       \/ G_KillBegin(k) \/ G_KillRemove(k)
        \/ OneOf(ksel[k], LAMBDA t : G_KillSelect(k, t, running[t]))
        \/ OneOf(kq[k], LAMBDA t : G_KillSend(k, t))
+
+Internal == ~crashed /\ InternalSteps
 
 \* bookkeeping of the pair: no line of the scenario
 ProcDone(p) ==
@@ -187,4 +203,5 @@ GenInit == Init /\ hist = <<>> /\ mode = "seq" /\ pa = NoProc /\ pb = NoProc /\ 
 GenSpec == GenInit /\ [][GenNext]_<<vars, gvars>>
 \* the scenario of a behaviour is the hist of its last state; the fingerprint ignores it
 GenView == <<vars, mode, pa, pb, gate>>
+PrintScn == (~ENABLED GenNext) => PrintT(<<"SCN", hist>>)
 =============================================================================
